@@ -5,7 +5,9 @@
 (*   flights: [case, side (s: server messages hit a uTLS client, C33;      *)
 (*             c: client messages hit the server, C34; rec: a ClientHello  *)
 (*             record handed to the importers, C07), msgs (bytes), msgs2   *)
-(*             (same case captured again), other (the peer's messages)]    *)
+(*             (same case captured again), other (the peer's messages),    *)
+(*             from (first message that is mutated; earlier ones were      *)
+(*             already covered by another case of the same parrot)]        *)
 (*   docs:    [name, kind (json|map), doc (tagged JSON tree)]              *)
 (*   hellos:  [name, hs (ClientHello bytes)]  -> tlsfingerprint.io maps    *)
 (*   opt:     [classes, inserts, docclasses]  (what this tier enumerates)  *)
@@ -62,7 +64,7 @@ Skel(c, k, N) ==
 \* server answered ITS first hello; when its layout is not stable (shuffling parrots) it is not mutated.
 ModeOf(f, kk) == IF f.side = "rec" \/ (f.side = "c" /\ kk = 1 /\ f.msgs[kk][1] = 1) THEN "replace" ELSE "live"
 Stable(cc, kk, N) == kk <= Len(Flights[cc].msgs2) /\ SkelOK(Flights[cc].msgs2[kk], Skel(cc, kk, N))
-Mutable(cc, kk, N) == ModeOf(Flights[cc], kk) = "replace" \/ Stable(cc, kk, N)
+Mutable(cc, kk, N) == kk >= Flights[cc].from /\ (ModeOf(Flights[cc], kk) = "replace" \/ Stable(cc, kk, N))
 
 NoExtW == [t |-> 0 - 1, s |-> 0, e |-> 0]
 ExtW(f, b, N, n, m) ==   \* C07: the (type, body range in the mutated bytes) of the extension that encloses the mutated node
@@ -152,5 +154,5 @@ OutcomeOK == out \in {"pending"} \cup Outcomes
 Emit == /\ (scn # None /\ out = "pending") => PrintT(<<"SCN", ToJson(scn)>>)
         /\ (IsFlight /\ scn = None /\ k <= Len(F0.msgs)) =>
               LET N == TreeAt(c, k).nodes IN
-              PrintT(<<"POS", ToJson([case |-> F0.case, msg |-> k - 1, st |-> st, nodes |-> Len(N), mutable |-> Mutable(c, k, N), skel |-> Skel(c, k, N)])>>)
+              PrintT(<<"POS", ToJson([case |-> F0.case, msg |-> k - 1, st |-> st, nodes |-> Len(N), mutable |-> Mutable(c, k, N), covered |-> k < F0.from, skel |-> Skel(c, k, N)])>>)
 =============================================================================
